@@ -159,10 +159,10 @@ def build(targets=None):
 
 def property_files(pid):
     """Properties/<pid>.v and Properties/<pid><suffix>.v (e.g. C04a.v, C19_x.v)"""
-    d = os.path.join(COQ, 'Properties')
+    listed = [l.strip() for l in open(os.path.join(COQ, '_CoqProject'))]
     out = []
-    for fn in sorted(os.listdir(d)):
-        m = re.match(rf'^({pid}(?:[a-z]|_\w+)?)\.v$', fn)
+    for l in sorted(listed):
+        m = re.match(rf'^Properties/({pid}(?:[a-z]|_\w+)?)\.v$', l)
         if m:
             out.append(m.group(1))
     return out
@@ -320,8 +320,11 @@ def shrink(lines, full, budget=60):
         i = 0
         changed = False
         while i < len(cur) and time.time() - t0 < budget:
-            cand = cur[:i] + cur[i + chunk:]
-            if cand and differs(cand):
+            # manager creations are never removed (an operation on a manager
+            # that does not exist differs for a reason of the harness only)
+            keep = [l for l in cur[i:i + chunk] if len(l.split()) > 1 and l.split()[1] == 'new']
+            cand = cur[:i] + keep + cur[i + chunk:]
+            if cand and len(cand) < len(cur) and differs(cand):
                 cur = cand
                 changed = True
             else:
